@@ -300,7 +300,14 @@ func (k Keeper) ComputeConsumerNextValSet(
 	}
 
 	// need to use the bondedValidators, not activeValidators, here since the chain might be opt-in and allow inactive vals
-	nextValidators, err := k.ComputeNextValidators(ctx, consumerId, bondedValidators, powerShapingParameters, minPower)
+	validatorsToConsider := bondedValidators
+	if !powerShapingParameters.AllowInactiveVals {
+		// when inactive validators are not allowed, only the validators of the provider's own consensus set are
+		// eligible; activeValidators is exactly that set (same ordering as the staking power index), whereas
+		// re-deriving it from token amounts can pick a different validator on equal voting power
+		validatorsToConsider = activeValidators
+	}
+	nextValidators, err := k.ComputeNextValidators(ctx, consumerId, validatorsToConsider, powerShapingParameters, minPower)
 	if err != nil {
 		return []abci.ValidatorUpdate{},
 			fmt.Errorf("computing next validators, consumerId(%s), minPower(%d): %w", consumerId, minPower, err)
